@@ -75,4 +75,444 @@ theorem scanLine_nil (buf : Nat) (r : Rec) (k : Nat) (sR sSem : Bool) (acc : Byt
   rw [scanLine]
   simp [(read_one_nil r h).1]
 
+theorem scanStep_fst (s : Bool × Bool × Bytes) (c : UInt8) : (scanStep s c).1 = (c == CR) := by
+  unfold scanStep
+  split
+  · rfl
+  · split
+    · rfl
+    · rename_i h
+      simp only [Bool.or_eq_true, not_or, Bool.not_eq_true] at h
+      exact h.1.symm
+
+/-- the scanner walks over any run of bytes that does not end the line, as long as the buffer
+bound allows, for every read fragmentation -/
+theorem scanLine_run (buf : Nat) : ∀ (l : Bytes) (r : Rec) (k : Nat) (sR sSem : Bool) (acc rest : Bytes),
+    r.st.data = l ++ rest → NoTerm sR l → k + l.length ≤ buf →
+    ∃ r', scanLine buf r k sR sSem acc =
+        scanLine buf r' (k + l.length) (l.foldl scanStep (sR, sSem, acc)).1
+          (l.foldl scanStep (sR, sSem, acc)).2.1 (l.foldl scanStep (sR, sSem, acc)).2.2 ∧
+      r'.st.data = rest ∧ r'.pos = r.pos + l.length := by
+  intro l
+  induction l with
+  | nil => intro r k sR sSem acc rest h _ _; exact ⟨r, rfl, by simpa using h, rfl⟩
+  | cons c t ih =>
+    intro r k sR sSem acc rest h hnt hk
+    obtain ⟨-, hd, hp⟩ := read_one_cons r c (t ++ rest) h
+    rw [scanLine_cons buf r k sR sSem acc c (t ++ rest) h]
+    simp only [List.length_cons] at hk
+    rw [if_neg (by omega), if_neg hnt.1]
+    have hnt' := hnt.2
+    rw [← scanStep_fst (sR, sSem, acc) c] at hnt'
+    obtain ⟨r', he, hd', hp'⟩ := ih (r.read 1).2 (k + 1) _ (scanStep (sR, sSem, acc) c).2.1
+      (scanStep (sR, sSem, acc) c).2.2 rest hd hnt' (by omega)
+    refine ⟨r', ?_, hd', by rw [hp', hp, List.length_cons]; omega⟩
+    rw [he, List.length_cons, List.foldl_cons]
+    have : k + 1 + t.length = k + (t.length + 1) := by omega
+    rw [this]
+
+/-- a run that does not end the line and does not fit the buffer is a parsing error -/
+theorem scanLine_overflow (buf : Nat) : ∀ (l : Bytes) (r : Rec) (k : Nat) (sR sSem : Bool) (acc rest : Bytes),
+    r.st.data = l ++ rest → NoTerm sR l → k + l.length > buf →
+    (scanLine buf r k sR sSem acc).1 = .error .bodyParsingError := by
+  intro l
+  induction l with
+  | nil =>
+    intro r k sR sSem acc rest h _ hk
+    cases hr : r.st.data with
+    | nil => rw [scanLine_nil _ _ _ _ _ _ hr]
+    | cons c t =>
+      rw [scanLine_cons _ _ _ _ _ _ c t hr, if_pos (by simp at hk; omega)]
+  | cons c t ih =>
+    intro r k sR sSem acc rest h hnt hk
+    rw [scanLine_cons buf r k sR sSem acc c (t ++ rest) h]
+    by_cases hk1 : k + 1 > buf
+    · rw [if_pos hk1]
+    · rw [if_neg hk1, if_neg hnt.1]
+      have hnt' := hnt.2
+      rw [← scanStep_fst (sR, sSem, acc) c] at hnt'
+      exact ih _ _ _ _ _ rest (read_one_cons r c (t ++ rest) h).2.1 hnt' (by simp at hk; omega)
+
+/-- a stream that ends before the line does is a parsing error -/
+theorem scanLine_eof (buf : Nat) (l : Bytes) (r : Rec) (k : Nat) (sR sSem : Bool) (acc : Bytes)
+    (h : r.st.data = l) (hnt : NoTerm sR l) :
+    (scanLine buf r k sR sSem acc).1 = .error .bodyParsingError := by
+  by_cases hk : k + l.length ≤ buf
+  · obtain ⟨r', he, hd, -⟩ := scanLine_run buf l r k sR sSem acc [] (by simpa using h) hnt hk
+    rw [he, scanLine_nil _ _ _ _ _ _ hd]
+  · exact scanLine_overflow buf l r k sR sSem acc [] (by simpa using h) hnt (by omega)
+
+/-- the only error of the scanner is `BodyParsingError` -/
+theorem scanLine_err (buf : Nat) : ∀ (d : Bytes) (r : Rec) (k : Nat) (sR sSem : Bool) (acc : Bytes) (e : Err),
+    r.st.data = d → (scanLine buf r k sR sSem acc).1 = .error e → e = .bodyParsingError := by
+  intro d
+  induction d with
+  | nil =>
+    intro r k sR sSem acc e h he
+    rw [scanLine_nil _ _ _ _ _ _ h] at he
+    simpa using he.symm
+  | cons c t ih =>
+    intro r k sR sSem acc e h he
+    rw [scanLine_cons _ _ _ _ _ _ c t h] at he
+    split at he
+    · simpa using he.symm
+    · split at he
+      · cases he
+      · exact ih _ _ _ _ _ e (read_one_cons r c t h).2.1 he
+
+theorem NoTerm_of_noLF : ∀ (l : Bytes) (sR : Bool), (∀ b ∈ l, b ≠ LF) → NoTerm sR l := by
+  intro l
+  induction l with
+  | nil => intro _ _; trivial
+  | cons c t ih =>
+    intro sR h
+    exact ⟨fun hc => h c (by simp) hc.2, ih _ (fun b hb => h b (by simp [hb]))⟩
+
+theorem NoTerm_prefix : ∀ (l : Bytes) (sR : Bool) (n : Nat), NoTerm sR l → NoTerm sR (l.take n) := by
+  intro l
+  induction l with
+  | nil => intro _ _ _; simp [NoTerm]
+  | cons c t ih =>
+    intro sR n h
+    cases n with
+    | zero => simp [NoTerm]
+    | succ n => exact ⟨h.1, ih _ n h.2⟩
+
+/-! ### legal size lines -/
+
+/-- a size line as sent: the spelling of the size (no CR, LF or `;`) and an optional chunk
+extension starting with `;` and free of LF -/
+def LegalLine (sp ext : Bytes) : Prop :=
+  (∀ b ∈ sp, b ≠ CR ∧ b ≠ SEM ∧ b ≠ LF) ∧ (ext = [] ∨ ∃ e, ext = SEM :: e ∧ ∀ b ∈ e, b ≠ LF)
+
+theorem foldl_digits : ∀ (sp : Bytes) (acc : Bytes), (∀ b ∈ sp, b ≠ CR ∧ b ≠ SEM ∧ b ≠ LF) →
+    sp.foldl scanStep (false, false, acc) = (false, false, acc ++ sp) := by
+  intro sp
+  induction sp with
+  | nil => intro acc _; simp
+  | cons c t ih =>
+    intro acc h
+    have hc := h c (by simp)
+    have h1 : (c == CR) = false := by simpa using hc.1
+    have h2 : (c == SEM) = false := by simpa using hc.2.1
+    rw [List.foldl_cons]
+    have : scanStep (false, false, acc) c = (false, false, acc ++ [c]) := by simp [scanStep, h1, h2]
+    rw [this, ih _ (fun b hb => h b (by simp [hb]))]
+    simp
+
+theorem foldl_ext : ∀ (e : Bytes) (sR : Bool) (acc : Bytes),
+    ∃ sR', e.foldl scanStep (sR, true, acc) = (sR', true, acc) := by
+  intro e
+  induction e with
+  | nil => intro sR acc; exact ⟨sR, rfl⟩
+  | cons c t ih =>
+    intro sR acc
+    rw [List.foldl_cons]
+    have : scanStep (sR, true, acc) c = (c == CR, true, acc) := by simp [scanStep]
+    rw [this]
+    exact ih _ _
+
+theorem LegalLine.noTerm (sp ext : Bytes) (h : LegalLine sp ext) (sR : Bool) :
+    NoTerm sR (sp ++ ext ++ [CR]) := by
+  apply NoTerm_of_noLF
+  intro b hb
+  simp only [List.mem_append, List.mem_singleton] at hb
+  rcases hb with (hb | hb) | hb
+  · exact (h.1 b hb).2.2
+  · rcases h.2 with rfl | ⟨e, rfl, he⟩
+    · cases hb
+    · rcases List.mem_cons.mp hb with rfl | hb
+      · decide
+      · exact he b hb
+  · subst hb; decide
+
+theorem LegalLine.foldl (sp ext : Bytes) (h : LegalLine sp ext) :
+    ∃ sSem, (sp ++ ext ++ [CR]).foldl scanStep (false, false, []) = (true, sSem, sp) := by
+  rw [List.foldl_append, List.foldl_append, foldl_digits sp [] h.1]
+  rcases h.2 with rfl | ⟨e, rfl, -⟩
+  · exact ⟨false, by simp [scanStep, CR, SEM]⟩
+  · simp only [List.foldl_cons, List.foldl_nil]
+    have : scanStep (false, false, [] ++ sp) SEM = (false, true, sp) := by simp [scanStep, CR, SEM]
+    rw [this]
+    obtain ⟨sR', he⟩ := foldl_ext e false sp
+    rw [he]
+    exact ⟨true, by simp [scanStep, CR]⟩
+
+/-- a legal size line that fits the buffer is scanned to its spelling, the stream is left right
+behind its CRLF — for every read fragmentation -/
+theorem scanLine_legal (buf : Nat) (sp ext rest : Bytes) (r : Rec) (h : LegalLine sp ext)
+    (hd : r.st.data = sp ++ ext ++ CRLF ++ rest) (hk : sp.length + ext.length + 2 ≤ buf) :
+    ∃ r', scanLine buf r 0 false false [] = (.ok sp, r') ∧ r'.st.data = rest ∧
+      r'.pos = r.pos + (sp.length + ext.length + 2) := by
+  have hd' : r.st.data = (sp ++ ext ++ [CR]) ++ (LF :: rest) := by rw [hd]; simp [CRLF, CR, LF]
+  obtain ⟨r1, he, hd1, hp1⟩ := scanLine_run buf (sp ++ ext ++ [CR]) r 0 false false [] (LF :: rest) hd'
+    (h.noTerm sp ext false) (by simp; omega)
+  obtain ⟨sSem, hf⟩ := h.foldl sp ext
+  rw [he, hf, scanLine_cons _ _ _ _ _ _ LF rest hd1]
+  simp only [List.length_append, List.length_cons, List.length_nil] at hp1
+  rw [if_neg (by simp only [List.length_append, List.length_cons, List.length_nil]; omega), if_pos ⟨rfl, rfl⟩]
+  obtain ⟨-, hd2, hp2⟩ := read_one_cons r1 LF rest hd1
+  exact ⟨_, rfl, hd2, by rw [hp2, hp1]; omega⟩
+
+/-! ### the CRLF check -/
+
+/-- `tail = read(2)` with the one-byte retry always yields the next two bytes of the stream (fewer
+only at the end of data), whether the stream hands them out together or one at a time -/
+theorem readTail_spec (r : Rec) :
+    (readTail r).1 = r.st.data.take 2 ∧ (readTail r).2.st.data = r.st.data.drop 2 ∧
+    (readTail r).2.pos = r.pos + min 2 r.st.data.length := by
+  obtain ⟨j, hjn, hjd, hpart, hdata, hpos, -, hj0⟩ := Rec.read_cases r 2
+  have hlen : (r.read 2).1.length = j := by rw [hpart, List.length_take]; omega
+  unfold readTail
+  split
+  · rename_i h1
+    have hj : j = 1 := by omega
+    subst hj
+    obtain ⟨j', hjn', hjd', hpart', hdata', hpos', -, hj0'⟩ := Rec.read_cases (r.read 2).2 1
+    rw [hdata] at hjd' hpart' hdata' hj0'
+    simp only [List.length_drop] at hjd'
+    refine ⟨?_, ?_, ?_⟩
+    · rw [hpart, hpart']
+      by_cases h2 : r.st.data.length ≤ 1
+      · have : j' = 0 := by omega
+        subst this
+        simp only [List.take_zero, List.append_nil]
+        rw [List.take_of_length_le h2, List.take_of_length_le (by omega)]
+      · have hne : List.drop 1 r.st.data ≠ [] := by
+          intro hc
+          have := congrArg List.length hc
+          simp at this; omega
+        have : j' = 1 := by have := hj0' (by omega) hne; omega
+        subst this
+        rw [← List.take_add]
+    · rw [hdata', List.drop_drop]
+      by_cases h2 : r.st.data.length ≤ 1
+      · rw [List.drop_of_length_le (by omega), List.drop_of_length_le (by omega)]
+      · have hne : List.drop 1 r.st.data ≠ [] := by
+          intro hc
+          have := congrArg List.length hc
+          simp at this; omega
+        have : j' = 1 := by have := hj0' (by omega) hne; omega
+        subst this; rfl
+    · rw [hpos', hpos]
+      by_cases h2 : r.st.data.length ≤ 1
+      · omega
+      · have hne : List.drop 1 r.st.data ≠ [] := by
+          intro hc
+          have := congrArg List.length hc
+          simp at this; omega
+        have : j' = 1 := by have := hj0' (by omega) hne; omega
+        omega
+  · rename_i h1
+    rw [hlen] at h1
+    refine ⟨?_, ?_, ?_⟩
+    · rw [hpart]
+      by_cases h0 : r.st.data = []
+      · rw [h0]; simp
+      · have := hj0 (by omega) h0
+        have : j = 2 := by omega
+        rw [this]
+    · rw [hdata]
+      by_cases h0 : r.st.data = []
+      · rw [h0]; simp
+      · have := hj0 (by omega) h0
+        have : j = 2 := by omega
+        rw [this]
+    · rw [hpos]
+      by_cases h0 : r.st.data = []
+      · rw [h0] at hjd; simp at hjd; rw [h0, hjd]; rfl
+      · have := hj0 (by omega) h0
+        omega
+
+/-! ### unfolding `iterChunked` -/
+
+theorem iterChunked_eq (buf : Nat) (max : Option Nat) (r : Rec) (sk : Sink) :
+    iterChunked buf max r sk =
+      match scanLine buf r 0 false false [] with
+      | (.error e, r1) => (.error e, r1)
+      | (.ok line, r1) =>
+        match pyIntHex line with
+        | none => (.error .bodyParsingError, r1)
+        | some n =>
+          if n = 0 then (.ok sk, r1)
+          else
+            match readParts true buf max n.toNat r1 sk with
+            | (.error e, r2) => (.error e, r2)
+            | (.ok sk2, r2) =>
+              if (readTail r2).1 ≠ CRLF then (.error .bodyParsingError, (readTail r2).2)
+              else iterChunked buf max (readTail r2).2 sk2 := by
+  rw [iterChunked]
+  split
+  · rename_i h; rw [h]
+  · rename_i h; rw [h]
+    simp only
+    split
+    · rename_i h3; rw [h3]
+    · rename_i h3; rw [h3]; simp only
+      split
+      · rfl
+      · split
+        · rename_i h2; rw [h2]
+        · rename_i h2; rw [h2]
+
+/-! ### one legal chunk -/
+
+/-- a chunk as a legal sender emits it: a legal size line whose spelling denotes the payload
+length (under Python's `int(x, 16)`), and a non-empty payload (size zero is the last-chunk) -/
+structure LegalChunk (c : Chunk) : Prop where
+  line : LegalLine c.spelling c.ext
+  size : pyIntHex c.spelling = some (c.payload.length : Int)
+  nonempty : c.payload ≠ []
+
+theorem encodeChunk_length (c : Chunk) :
+    (encodeChunk c).length = c.spelling.length + c.ext.length + 2 + c.payload.length + 2 := by
+  simp [encodeChunk, CRLF]; omega
+
+/-- A complete legal chunk whose size line fits the buffer and whose payload stays within the
+size limit is consumed exactly — size line, payload, CRLF — and its payload handed to the
+accumulator, whatever the read fragmentation; decoding continues behind it. -/
+theorem chunk_step (buf : Nat) (max : Option Nat) (c : Chunk) (rest : Bytes) (r : Rec) (sk : Sink)
+    (hc : LegalChunk c) (hfit : c.spelling.length + c.ext.length + 2 ≤ buf)
+    (hd : r.st.data = encodeChunk c ++ rest) (hinv : SinkInv buf sk)
+    (hmax : overMax max (sk.size + c.payload.length) = false) :
+    ∃ r3, iterChunked buf max r sk = iterChunked buf max r3 (sk.extend buf c.payload) ∧
+      r3.st.data = rest ∧ r3.pos = r.pos + (encodeChunk c).length := by
+  have hb : 0 < buf := by omega
+  have hd1 : r.st.data = c.spelling ++ c.ext ++ CRLF ++ (c.payload ++ CRLF ++ rest) := by
+    rw [hd]; simp [encodeChunk]
+  obtain ⟨r1, hs, hdata1, hpos1⟩ := scanLine_legal buf _ _ _ r hc.line hd1 hfit
+  have hplen : 0 < c.payload.length := List.length_pos_iff.mpr hc.nonempty
+  have hlen1 : c.payload.length ≤ r1.st.data.length := by rw [hdata1]; simp
+  have hmin : min c.payload.length r1.st.data.length = c.payload.length := Nat.min_eq_left hlen1
+  obtain ⟨hp1, hp2, hp3⟩ := readParts_within true buf max hb c.payload.length r1 sk hinv (by rw [hmin]; exact hmax)
+  rw [hmin] at hp1 hp2 hp3
+  rw [if_neg (by omega)] at hp3
+  have htake : r1.st.data.take c.payload.length = c.payload := by
+    rw [hdata1, List.append_assoc, List.take_left]
+  have hdrop : r1.st.data.drop c.payload.length = CRLF ++ rest := by
+    rw [hdata1, List.append_assoc, List.drop_left]
+  rw [htake] at hp3
+  rw [hdrop] at hp1
+  rcases hrp : readParts true buf max c.payload.length r1 sk with ⟨res, r2⟩
+  rw [hrp] at hp1 hp2 hp3
+  simp only at hp1 hp2 hp3
+  subst hp3
+  obtain ⟨ht1, ht2, ht3⟩ := readTail_spec r2
+  rw [hp1] at ht1 ht2 ht3
+  refine ⟨(readTail r2).2, ?_, by rw [ht2]; simp [CRLF], ?_⟩
+  · rw [iterChunked_eq buf max r sk, hs]
+    simp only [hc.size]
+    rw [if_neg (by omega)]
+    simp only [Int.toNat_natCast, hrp]
+    rw [if_neg (by rw [ht1]; simp [CRLF])]
+  · rw [ht3, hp2, hpos1, encodeChunk_length]
+    simp [CRLF]
+    omega
+
+/-- the last-chunk line ends the body: nothing after its CRLF is read -/
+theorem last_step (buf : Nat) (max : Option Nat) (ls le trailer : Bytes) (r : Rec) (sk : Sink)
+    (hl : LegalLine ls le) (hz : pyIntHex ls = some 0) (hfit : ls.length + le.length + 2 ≤ buf)
+    (hd : r.st.data = ls ++ le ++ CRLF ++ trailer) :
+    ∃ r1, iterChunked buf max r sk = (.ok sk, r1) ∧ r1.st.data = trailer ∧
+      r1.pos = r.pos + (ls.length + le.length + 2) := by
+  obtain ⟨r1, hs, hdata1, hpos1⟩ := scanLine_legal buf _ _ _ r hl hd hfit
+  refine ⟨r1, ?_, hdata1, hpos1⟩
+  rw [iterChunked_eq buf max r sk, hs]
+  simp [hz]
+
+/-- **decoding is exact**: every legal encoding whose size lines fit the buffer decodes to the
+concatenation of the chunk payloads, the stream is left right behind the last-chunk line (trailer
+untouched), for every read fragmentation. -/
+theorem iterChunked_decode (buf : Nat) (max : Option Nat) (ls le trailer : Bytes)
+    (hl : LegalLine ls le) (hz : pyIntHex ls = some 0) (hlfit : ls.length + le.length + 2 ≤ buf) :
+    ∀ (chunks : List Chunk) (r : Rec) (sk : Sink),
+      (∀ c ∈ chunks, LegalChunk c ∧ c.spelling.length + c.ext.length + 2 ≤ buf) →
+      r.st.data = encodeChunked chunks ls le trailer → SinkInv buf sk →
+      overMax max (sk.size + (payloadOf chunks).length) = false →
+      ∃ r', iterChunked buf max r sk = (.ok (sk.extend buf (payloadOf chunks)), r') ∧
+        r'.st.data = trailer ∧
+        r'.pos + trailer.length = r.pos + (encodeChunked chunks ls le trailer).length := by
+  intro chunks
+  induction chunks with
+  | nil =>
+    intro r sk _ hd hinv _
+    obtain ⟨r1, h1, h2, h3⟩ := last_step buf max ls le trailer r sk hl hz hlfit (by simpa [encodeChunked] using hd)
+    refine ⟨r1, ?_, h2, ?_⟩
+    · rw [h1]; simp [payloadOf, Sink.extend_nil buf sk hinv]
+    · rw [h3]; simp [encodeChunked, CRLF]; omega
+  | cons c cs ih =>
+    intro r sk hall hd hinv hmax
+    have hc := hall c (by simp)
+    have hpl : payloadOf (c :: cs) = c.payload ++ payloadOf cs := by simp [payloadOf]
+    rw [hpl, List.length_append] at hmax
+    have hd' : r.st.data = encodeChunk c ++ encodeChunked cs ls le trailer := by
+      rw [hd]; simp [encodeChunked]
+    obtain ⟨r3, he, hd3, hp3⟩ := chunk_step buf max c _ r sk hc.1 hc.2 hd' hinv
+      (overMax_mono max _ _ (by omega) hmax)
+    obtain ⟨r', he', hd4, hp4⟩ := ih r3 (sk.extend buf c.payload) (fun x hx => hall x (by simp [hx])) hd3
+      (Sink.extend_inv buf sk _ hinv)
+      (by simp only [Sink.extend]; rw [Nat.add_assoc]; exact hmax)
+    refine ⟨r', ?_, hd4, ?_⟩
+    · rw [he, he', Sink.extend_extend, hpl]
+    · rw [hp4, hp3]
+      simp [encodeChunked]
+      omega
+
+/-! ### totality -/
+
+/-- whatever the bytes, the schedule and the buffer: the decoder's only errors are
+`BodyParsingError` and `BodySizeError` -/
+theorem iterChunked_err (buf : Nat) (max : Option Nat) :
+    ∀ (n : Nat) (r : Rec) (sk : Sink) (e : Err), r.st.data.length = n →
+      (iterChunked buf max r sk).1 = .error e → e = .bodyParsingError ∨ e = .bodySizeError := by
+  intro n
+  induction n using Nat.strongRecOn with
+  | _ n ih =>
+    intro r sk e hn he
+    rw [iterChunked_eq] at he
+    rcases hs : scanLine buf r 0 false false [] with ⟨res, r1⟩
+    rw [hs] at he
+    cases res with
+    | error e1 =>
+      simp only at he
+      have : (scanLine buf r 0 false false []).1 = .error e1 := by rw [hs]
+      have := scanLine_err buf _ r 0 false false [] e1 rfl this
+      simp only [Except.error.injEq] at he
+      subst he; exact Or.inl this
+    | ok line =>
+      simp only at he
+      have hlt := scanLine_data_lt buf r 0 false false [] line (by rw [hs])
+      rw [hs] at hlt
+      simp only at hlt
+      cases hp : pyIntHex line with
+      | none =>
+        rw [hp] at he
+        simp only [Except.error.injEq] at he
+        exact Or.inl he.symm
+      | some k =>
+        rw [hp] at he
+        simp only at he
+        split at he
+        · cases he
+        · rcases hrp : readParts true buf max k.toNat r1 sk with ⟨res2, r2⟩
+          rw [hrp] at he
+          have hle := readParts_data_le true buf max k.toNat r1 sk
+          rw [hrp] at hle
+          simp only at hle
+          cases res2 with
+          | error e2 =>
+            simp only [Except.error.injEq] at he
+            subst he
+            have : (readParts true buf max k.toNat r1 sk).1 = .error e2 := by rw [hrp]
+            rcases readParts_err true buf max _ _ _ _ this with h | ⟨-, h⟩
+            · exact Or.inr h
+            · exact Or.inl h
+          | ok sk2 =>
+            simp only at he
+            split at he
+            · simp only [Except.error.injEq] at he
+              exact Or.inl he.symm
+            · have hle2 := readTail_data_le r2
+              exact ih _ (by omega) (readTail r2).2 sk2 e rfl he
+
 end Ombott.Chunked
